@@ -466,7 +466,8 @@ func genGuards(c *ctx) {
 			}
 			return strings.Join(p, ",")
 		}
-		key := fmt.Sprintf("%d:%s:%s", maxbuf, fmtList(used), fmtList(times))
+		// one key per announced limit: the sequences that expose it are in the detail
+		key := strconv.FormatInt(maxbuf, 10)
 		if e != "" {
 			c.violate("bufsize-evolution-failed:"+key, "pipelineRecvAck did not get through a sequence of well-formed acknowledgements", e)
 			return
@@ -486,7 +487,7 @@ func genGuards(c *ctx) {
 			}
 		}
 		if makePanic != "" {
-			c.violate("bufsize-make-panic:"+key, "newSendDataWriter panicked on the buffer size reached: "+makePanic,
+			c.violate("bufsize-capacity:"+key, "newSendDataWriter panicked on the buffer size reached: "+makePanic,
 				fmt.Sprintf("announced bufsize=%d acknowledged lengths=%s chunk times=%s => sizes %s", maxbuf, fmtList(used), fmtList(times), fmtList(sizes)))
 		}
 		c.count(fmt.Sprintf("bufevo:grew=%v", len(sizes) > 1 && sizes[len(sizes)-1] > sizes[0]))
